@@ -136,6 +136,11 @@ impl Stats {
                 false
             }
             None => {
+                if self.viols.len() >= 150 {
+                    // enough distinct witnesses from this shard; keep counting
+                    self.count("violation_signatures_not_recorded", 1);
+                    return false;
+                }
                 self.viols.insert(sig, (v, 1));
                 true
             }
